@@ -722,3 +722,18 @@ PROPS['C02']['lean_modules'] = PROPS['C02']['lean_modules'] + ['FluentVerif.Tie.
 PROPS['C02']['theorems'] = PROPS['C02']['theorems'] + ['FV.Tie.helpers_match_model', 'FV.Tie.helpers_all_modelled']
 PROPS['C02']['explanation'] = PROPS['C02']['explanation'] + (" The Send* helpers' shape is regenerated too: for each helper of the model (Helper.wire) the source "
     "as it is now is `msg[, err] := protocol.<that constructor>(<the helper's own arguments>)` followed by `Send(msg)` (helpers_match_model over Gen.Client.clientHelpers).")
+
+# ---- websocket client method skeletons (translator/wsclient.go -> Gen/WsClient.lean, Sk/WsClient.lean, Tie/WsClient.lean)
+_SKW_THEOREMS = ['FV.Tie.WSClient_connect_is_model', 'FV.Tie.WSClient_Connect_is_model', 'FV.Tie.WSClient_Disconnect_is_model',
+                 'FV.Tie.WSClient_Reconnect_is_model', 'FV.Tie.WSClient_Send_is_model', 'FV.Tie.WSClient_SendRaw_is_model']
+_SKW_TEXT = (" Regenerated tie for the websocket client's methods: the bodies of WSClient.connect, Connect, Disconnect, Reconnect, Send, SendRaw are re-read "
+             "from fluent/client/ws_client.go on every run as sequences of idioms recognised by their source text (Gen/WsClient.lean; anything else `.unknown`) "
+             "and WSClient_M_is_model (Tie/WsClient.lean) prove that running them on any state, under any outcome of the factory, the encoder and the frame "
+             "write, gives exactly the result and state of the model's step.")
+for _p in ('C09', 'C17'):
+    PROPS[_p]['translator'] = True
+    PROPS[_p]['lean_modules'] = PROPS[_p]['lean_modules'] + ['FluentVerif.Tie.WsClient']
+    PROPS[_p]['theorems'] = PROPS[_p]['theorems'] + _SKW_THEOREMS
+    PROPS[_p]['explanation'] = PROPS[_p]['explanation'] + _SKW_TEXT
+    if 'websocket client\'s methods are additionally tied by translation' not in PROPS[_p]['technique']:
+        PROPS[_p]['technique'] = PROPS[_p]['technique'] + '; the websocket client\'s methods are additionally tied by translation (bodies regenerated from the Go source on every run, proved equal to the model\'s step)'
